@@ -184,6 +184,16 @@ func verifNextOutcome() (kind int, status int) {
 	return
 }
 
+// verifInterim: whether the scripted backend sends an interim 103 Early Hints before its final status.
+var verifNoInterim = true
+
+func verifInterim() bool {
+	if verifForceOK || verifNoInterim {
+		return false
+	}
+	return verifrt.Bool("backendSendsInterim103")
+}
+
 // harness-owned shared state is guarded by its own mutex so that concurrent
 // harnesses do not introduce races of their own
 var (
